@@ -173,12 +173,15 @@ func (i *interpreter) tryMerge(fr *frame, instr *ssa.If, c *sym.Term) (continuat
 				return 0, false
 			}
 			replay = true
-		} else {
-			// only worth merging when both sides are feasible
+		} else if i.isLoopHeader(fr.block) {
+			// a loop condition: merge only when both sides are feasible (otherwise the
+			// speculation would unroll the loop without bound)
 			if i.feasible(c) != sym.Sat || i.feasible(i.ctx.Not(c)) != sym.Sat {
 				return 0, false
 			}
 		}
+		// other branches are merged without asking the solver first: an infeasible arm only
+		// contributes an unreachable ite branch
 	} else if i.specDepth >= maxSpecDepth {
 		i.mergeAbort("nesting too deep")
 	}
@@ -313,6 +316,14 @@ func (i *interpreter) tryMerge(fr *frame, instr *ssa.If, c *sym.Term) (continuat
 		// registers that existed at the If and were overwritten in the arm (blocks executed
 		// again, e.g. loop headers) may be read after the join without a phi: merge them too
 		for k, old := range savedEnv {
+			// only registers that can be read after the join matter: their defining block
+			// dominates the join (everything else is dead there by SSA dominance)
+			if join == nil {
+				break
+			}
+			if in, isInstr := k.(ssa.Instruction); !isInstr || in.Block() == nil || !in.Block().Dominates(join) {
+				continue
+			}
 			if nv, ok := fr.env[k]; ok && !identicalVal(nv, old) {
 				if ar.regs == nil {
 					ar.regs = map[ssa.Value]value{}
@@ -476,6 +487,24 @@ func (i *interpreter) undoTo(mark int) {
 		}
 	}
 	i.trail = i.trail[:mark]
+}
+
+// isLoopHeader reports whether b has a back edge (a predecessor it dominates).
+func (i *interpreter) isLoopHeader(b *ssa.BasicBlock) bool {
+	if i.loopHdr == nil {
+		i.loopHdr = map[*ssa.BasicBlock]bool{}
+	}
+	if v, ok := i.loopHdr[b]; ok {
+		return v
+	}
+	r := false
+	for _, p := range b.Preds {
+		if b.Dominates(p) {
+			r = true
+		}
+	}
+	i.loopHdr[b] = r
+	return r
 }
 
 // sideCond records a condition under which the speculative region would panic.
